@@ -83,7 +83,7 @@ def same_bits(a, b):
 class PoolRun:
     """one cube + list of aggregate names; evaluates serially / pooled / interrupted and records traces"""
 
-    def __init__(self, env, kind, case, names, seed):
+    def __init__(self, env, kind, case, names, seed, commons=None):
         self.env = env
         self.kind = kind
         self.case = case
@@ -91,12 +91,17 @@ class PoolRun:
         self.rnd = random.Random(seed)
         self.seed = seed
         if kind == "ccube":
-            self.dims = env.index_dims(case)
+            self.dims = env.index_dims(case, commons=commons)
             self.cube = env.ccube(self.dims, interacting_shape=tuple(case.ishape))
         else:
             self.dims = [d.astype(np.int64) for d in case.dims]
             self.cube = env.xcube(self.dims, interacting_shape=tuple(case.ishape))
         self.T = int(self.cube.scaffold_size)
+
+    def twin(self):
+        """a brand-new cube object over identically built dimensions (same commons): nothing has ever run on it"""
+        commons = [i.common for i in self.dims] if self.kind == "ccube" else None
+        return PoolRun(self.env, self.kind, self.case, self.names, self.seed, commons=commons)
 
     def funcs(self):
         return make_funcs(self.kind, self.case, random.Random(self.seed), self.names)
